@@ -3,6 +3,7 @@ import M3d.Model.Collide
 import M3d.Model.CollideXf
 import M3d.Model.CollideCone
 import M3d.Model.CollideQuery
+import M3d.Model.CollideScale
 /-!
 Line-protocol handler for C07.  Core-only; runs the models of `M3d/Model/Collide.lean`
 * at `Rat` for the `…x` kinds (exact mode: dyadic inputs on which every Go float operation is exact),
@@ -37,6 +38,14 @@ Kinds (see notes/C07.md):
   profballx n (s0 s1)… minZ maxZ c r  profileCollider.SphereCollision (Rat, spec)
   msegx   G|A n (a b c)… s0 s1        3-D mesh collider.SegmentCollision (Rat)
   mseg2x  G|A n (s0 s1)… q0 q1        2-D mesh collider.SegmentCollision (Rat)
+  reent3|reent2 <collider-kind> (fail | P nP m tok… A nA m tok… I m tok… O m tok…)
+                                      an enumeration observed with a passive callback (P) and with a callback that
+                                      queries the same collider before it returns (A), the answers of those nested
+                                      queries inside (I) and repeated outside (O): `M3d.Col.reentVerdict`
+  profrx | joinrx                     = profx | joinx, the callbacks observed by such an active callback
+  scale3|scale2 <collider-kind> k (run of the ray (o, d))
+                                      what the ray (o, k·d) must report: every parameter divided by k (Float; exact
+                                      for the powers of two the harness uses), `M3d.Col.scaledRun`
 -/
 namespace M3d.Drv.C07
 open M3d M3d.Col
@@ -576,8 +585,72 @@ def hMeshSeg2 (ws : List String) : Option String := do
   else if mode == "A" then some (boolStr spec)
   else none
 
+/-! ### re-entrant callbacks, scaled directions (`M3d/Model/CollideScale.lean`) -/
+
+def takeN (n : Nat) (ws : List String) : Option (List String × List String) :=
+  if ws.length < n then none else some (ws.take n, ws.drop n)
+
+/-- `tag m tok…` -/
+def pToks (tag : String) : List String → Option (List String × List String)
+  | t :: m :: ws => if t == tag then m.toNat?.bind fun m => takeN m ws else none
+  | _ => none
+
+/-- `tag n m tok…` -/
+def pCountToks (tag : String) : List String → Option (Nat × List String × List String)
+  | t :: n :: ws => if t == tag then do
+      let n ← n.toNat?
+      let (toks, ws) ← pToks tag (tag :: ws)
+      some (n, toks, ws)
+    else none
+  | _ => none
+
+/-- The collisions are compared as the bit patterns the harness printed (`t:nx:ny:nz` in hex): `reentVerdict` at the
+hit type `String`.  That the verdict is `ok` for every collider that is a function of the ray alone, whatever the
+callback does, is `M3d.C07.reent_obs`. -/
+def handleReent (ws : List String) : Option String :=
+  match ws with
+  | _kind :: "fail" :: _ => some "viol:panic-or-timeout"
+  | _kind :: ws => do
+      let (nP, p, ws) ← pCountToks "P" ws
+      let (nA, a, ws) ← pCountToks "A" ws
+      let (ni, ws) ← pToks "I" ws
+      let (no, ws) ← pToks "O" ws
+      if !ws.isEmpty then none
+      let v := reentVerdict nP p nA a ni no
+      some (if v = "ok" then "ok" else "viol:" ++ v)
+  | _ => none
+
+/-- the run `n0 n1 (T t n…)… F (0 | 1 t n…)` of the ray `(o, d)` with every parameter divided by `k`:
+`scaledRun (Hit.scaleT k)` on the printed form (`M3d.C07.ray_scale_invariant_*`) -/
+def scaleToks (k : Float) : List String → Option (List String)
+  | [] => some []
+  | "T" :: t :: rest => do
+      let x ← floatOfHex t
+      let r ← scaleToks k rest
+      some ("T" :: hexOfFloat (scaleParam k x) :: r)
+  | "F" :: "1" :: t :: rest => do
+      let x ← floatOfHex t
+      let r ← scaleToks k rest
+      some ("F" :: "1" :: hexOfFloat (scaleParam k x) :: r)
+  | w :: rest => (scaleToks k rest).map (w :: ·)
+
+def handleScale (ws : List String) : Option String :=
+  match ws with
+  | _kind :: k :: run => do
+      let k ← floatOfHex k
+      if !(0 < k) then none
+      let r ← scaleToks k run
+      some (" ".intercalate r)
+  | _ => none
+
 def handleAll (ws : List String) : Option String :=
   match ws with
+  | "reent3" :: rest => handleReent rest
+  | "reent2" :: rest => handleReent rest
+  | "scale3" :: rest => handleScale rest
+  | "scale2" :: rest => handleScale rest
+  | "profrx" :: rest => hProf rest
+  | "joinrx" :: rest => hJoin rest
   | "profballx" :: rest => hProfBall rest
   | "msegx" :: rest => hMeshSeg3 rest
   | "mseg2x" :: rest => hMeshSeg2 rest
